@@ -789,6 +789,11 @@ func genC09() *rapid.Generator[*Spec] {
 
 func genC11() *rapid.Generator[*Spec] {
 	return rapid.Custom(func(t *rapid.T) *Spec {
+		if rapid.IntRange(0, 99).Draw(t, "sharedfamily") < 15 {
+			s := genShared(rapid.Bool().Draw(t, "defect")).Draw(t, "shared")
+			s.Note = "C11 " + s.Note
+			return s
+		}
 		s := baseWF(t, WFOpts{})
 		x := &mutCtx{t: t, s: s}
 		var binds []int
